@@ -296,7 +296,21 @@ def features(ast):
     F.discard(None)
     d = quant_depth(ast)
     if d >= 2: F.add('nested-quant')
+    ov = closure_overlap_kind(ast)
+    if ov: F.update(ov)
     return F
+
+def closure_overlap_kind(ast):
+    """labels 'closure-next-overlap:<0|1|n>' for every variable quantifier over a bare atom that is directly followed, in a sequence,
+    by another atom; the number counts the alphabet characters both can match"""
+    out = set()
+    for n in walk(ast):
+        if n[0] != 'seq': continue
+        for a, b in zip(n[1], n[1][1:]):
+            if a[0] == 'rep' and a[1][0] in ATOMS and (a[3] is None or a[3] != a[2]) and b[0] in ATOMS:
+                sh = sum(1 for ch in UNIVERSE if atom_member(a[1], ch) is True and atom_member(b, ch) is True)
+                out.add('closure-next-overlap:%s' % ('0' if sh == 0 else '1' if sh == 1 else 'n'))
+    return out
 
 def quant_depth(node):
     k = node[0]
@@ -577,12 +591,81 @@ HAND = [
     ('seq', [('rep', ('lit', 'a', False), 0, 0, 'n,m', False), ('lit', 'b', False)]),
 ]
 
+# ------------------------------------------------------------------------------------------------
+# family "closure next to an overlapping atom": a quantified character class (never grouped) immediately followed by a class or
+# literal whose code points overlap the closure's class in 0 (incl. directly adjacent), exactly 1 (at the closure class's upper or
+# lower end) or several code points -- the situation in which Xerces decides (RegularExpression::doTokenOverlap ->
+# RangeToken::intersectRanges) whether the closure may be compiled as a non-backtracking one.  All boundary characters are characters
+# of the curated alphabet (incl. the two supplementary ones), and they lead the pattern's subject alphabet, so the exhaustive subjects
+# contain the strings that force the closure to give the shared character back ("cb" for [bc]*[ab]).
+# ------------------------------------------------------------------------------------------------
+POINTS = sorted(UNIVERSE, key=ord)
+OVERLAP_KINDS = ['one-hi', 'one-lo', 'one-hi', 'one-lo', 'none-adjacent', 'none', 'several', 'same', 'inside']
+
+def _span_items(lo_i, hi_i, form, extra=None):
+    """class items for the universe points POINTS[lo_i..hi_i]: one range, or the individual characters"""
+    lo, hi = POINTS[lo_i], POINTS[hi_i]
+    if lo_i == hi_i: items = [('c', lo, True)]
+    elif form == 'chars': items = [('c', POINTS[k], True) for k in range(lo_i, hi_i + 1)]
+    else: items = [('r', lo, hi)]
+    if extra is not None: items = ([extra] + items) if ord(extra[1]) < ord(lo) else (items + [extra])
+    return items
+
+@st.composite
+def gen_overlap_family(draw):
+    n = len(POINTS)
+    kind = draw(st.sampled_from(OVERLAP_KINDS))
+    i = draw(st.integers(2, n - 3))                      # index of the pivot point p
+    k = draw(st.integers(0, 2)); j = draw(st.integers(0, 2))
+    lo = max(0, i - k); hi = min(n - 1, i + j)
+    if kind == 'one-hi':   X = (lo, i); Y = (i, hi)      # closure class ends where the follower begins
+    elif kind == 'one-lo': X = (i, hi); Y = (lo, i)      # closure class begins where the follower ends
+    elif kind == 'none-adjacent':                        # disjoint, nothing in between (in the alphabet; for a b c also in Unicode)
+        X, Y = (max(0, i - 1 - k), i - 1), (i, hi)
+        if draw(st.booleans()): X, Y = Y, X
+    elif kind == 'none':
+        X, Y = (max(0, i - 2 - k), i - 2), (i, hi)
+        if draw(st.booleans()): X, Y = Y, X
+    elif kind == 'several': X = (max(0, i - 1 - k), i + 1); Y = (i, min(n - 1, i + 2 + j))
+    elif kind == 'same':    X = (lo, hi); Y = (lo, hi)
+    else:                   X = (max(0, i - 1 - k), min(n - 1, i + 1 + j)); Y = (i, i)        # follower strictly inside
+    if kind in ('several', 'inside') and draw(st.booleans()): X, Y = Y, X
+    fx = draw(st.sampled_from(['range', 'range', 'chars'])); fy = draw(st.sampled_from(['range', 'range', 'chars']))
+    # optionally a second, far-away range in the closure class ([9a-f]{2,}[0-9] style)
+    extra = None
+    if draw(st.integers(0, 3)) == 0:
+        far = [q for q in (0, 1, n - 2, n - 1) if q < min(X[0], Y[0]) - 1 or q > max(X[1], Y[1]) + 1]
+        if far: extra = ('c', POINTS[draw(st.sampled_from(far))], True)
+    xcls = ('cls', False, _span_items(X[0], X[1], fx, extra), None)
+    if Y[0] == Y[1] and draw(st.booleans()): follower = ('lit', POINTS[Y[0]], draw(st.booleans()))
+    else: follower = ('cls', False, _span_items(Y[0], Y[1], fy), None)
+    form = draw(st.sampled_from(['*', '*', '+', 'n,', 'n,m', '?']))
+    if form == '*': mn, mx = 0, None
+    elif form == '+': mn, mx = 1, None
+    elif form == 'n,': mn, mx = draw(st.integers(0, 3)), None
+    elif form == '?': mn, mx = 0, 1
+    else:
+        mn = draw(st.integers(0, 2)); mx = draw(st.integers(mn + 1, 5))
+    parts = [('rep', xcls, mn, mx, form, False), follower]
+    shape = draw(st.integers(0, 5))
+    if shape == 0: parts.insert(0, ('lit', POINTS[draw(st.integers(0, n - 1))], False))
+    elif shape == 1: parts.append(('rep', follower, 0, 1, '?', False))
+    elif shape == 2: parts.append(draw(gen_atom([POINTS[i]])))
+    elif shape == 3: parts = [('rep', ('grp', ('seq', parts)), 1, 2, 'n,m', False)]
+    # the subject alphabet starts with the pivot, then a character only the closure class has, then one only the follower has
+    xs = set(range(X[0], X[1] + 1)); ys = set(range(Y[0], Y[1] + 1))
+    base = [POINTS[i]] + [POINTS[q] for q in sorted(xs - ys)[:1]] + [POINTS[q] for q in sorted(ys - xs)[-1:]]
+    if len(base) < 3: base += [POINTS[q] for q in sorted(xs | ys) if POINTS[q] not in base][:3 - len(base)]
+    return ('seq', parts), base
+
 @st.composite
 def gen_pattern(draw, maxdepth=4, lazy_ok=False):
-    """-> (ast, base alphabet).  Roughly 1 in 30 patterns is one of the hand-written shapes."""
+    """-> (ast, base alphabet).  Roughly 1 in 30 patterns is one of the hand-written shapes, 1 in 8 of the closure-overlap family."""
     nb = draw(st.integers(1, 3))
     base = [draw(st.sampled_from(BASE_POOL)) for _ in range(nb)]
-    if draw(st.integers(0, 29)) == 0: return draw(st.sampled_from(HAND)), ['a', 'b', 'c']
+    sel = draw(st.integers(0, 31))
+    if sel == 0: return draw(st.sampled_from(HAND)), ['a', 'b', 'c']
+    if sel <= 4: return draw(gen_overlap_family())
     depth = draw(st.integers(1, maxdepth))
     return draw(gen_node(base, depth, lazy_ok)), base
 
